@@ -30,6 +30,13 @@ Proof.
   rewrite skipn_length in H0. lia.
 Qed.
 
+Lemma skipn_head_nth : forall (l : bytes) k y rest, skipn k l = y :: rest -> nth_error l k = Some y.
+Proof.
+  intros l k. revert l. induction k as [|k IH]; intros l y rest H.
+  - destruct l; [discriminate|]. cbn [skipn] in H. inversion H. reflexivity.
+  - destruct l as [|x l]; [discriminate|]. cbn [skipn nth_error] in *. eapply IH. exact H.
+Qed.
+
 (* one ascii/wide form of the text, as compile_main compiles it *)
 Section Main.
   Variable m : tmods.
@@ -49,7 +56,7 @@ Section Main.
       assert (Hnc : tm_nocase m = false) by (destruct Hexcl as [H|H]; [discriminate|exact H]).
       rewrite Hnc. unfold xor_range_of. rewrite X. split.
       + intros [sp [[<-|[]] H]]. unfold sp_match in H. cbn [sp_kind sp_flags] in H.
-        destruct main as [|x t] eqn:Em; [congruence|]. rewrite <- Em in *.
+        destruct main as [|x t]; [congruence|]. set (main := x :: t) in *.
         destruct (nth_error d s) as [y|] eqn:Ed; [|discriminate].
         destruct (in_xor_range (lo, hi) (N.lxor y x) && Nat.leb (s + length main) (length d) &&
                   prefix_b (byte_eq false (N.lxor y x)) main (skipn s d) &&
@@ -58,30 +65,29 @@ Section Main.
         inversion H; subst. rewrite !andb_true_iff in C. destruct C as [[[C1 C2] C3] C4].
         apply Nat.leb_le in C2. unfold in_xor_range in C1. cbn [fst snd] in C1. apply andb_true_iff in C1.
         destruct C1 as [R1 R2]. apply N.leb_le in R1, R2.
-        exists (N.lxor y x). cbn [key_in_range key_report]. repeat split; try assumption; try lia.
+        assert (Hlen : len = length main) by (unfold main in *; cbn [length] in *; lia).
+        exists (N.lxor y x). cbn [key_in_range key_report].
+        split; [split; assumption|]. split; [reflexivity|]. split; [exact Hlen|]. split.
         * apply occurs_b_prefix. split; [exact C3|lia].
-        * rewrite vfw_fullword in C4. replace (s + len) with (s + length main) by lia. exact C4.
+        * rewrite vfw_fullword in C4. exact C4.
       + intros [k [[R1 R2] [-> [-> [Hocc Hfw]]]]]. cbn [key_report].
         apply occurs_b_prefix in Hocc. destruct Hocc as [Hp Hs].
         pose proof (prefix_len_bound _ _ _ _ Hp Hs) as Hb.
         exists (mkSP (KXor main) (mkF w false (tm_fullword m) (tm_fullword m))). split; [left; reflexivity|].
         unfold sp_match. cbn [sp_kind sp_flags].
-        destruct main as [|x t] eqn:Em; [congruence|]. rewrite <- Em in *.
-        destruct (skipn s d) as [|y rest] eqn:Esk; [rewrite Em in Hp; discriminate|].
-        assert (Ed : nth_error d s = Some y).
-        { clear -Esk. revert d Esk. induction s as [|s IH]; intros d Esk.
-          - destruct d; [discriminate|]. inversion Esk. reflexivity.
-          - destruct d as [|z d]; [discriminate|]. cbn [skipn nth_error] in *. apply IH. exact Esk. }
+        destruct main as [|x t]; [congruence|]. set (main := x :: t) in *.
+        destruct (skipn s d) as [|y rest] eqn:Esk; [discriminate|].
+        assert (Ed : nth_error d s = Some y) by (eapply skipn_head_nth; exact Esk).
         rewrite Ed.
         assert (Hk : N.lxor y x = k).
-        { assert (Hp' := Hp). rewrite Em in Hp'. cbn [prefix_b] in Hp'. apply andb_true_iff in Hp'. destruct Hp' as [H1 _].
+        { assert (Hp' := Hp). unfold main in Hp'. cbn [prefix_b] in Hp'. apply andb_true_iff in Hp'. destruct Hp' as [H1 _].
           unfold byte_eq in H1. cbn [andb] in H1. rewrite orb_false_r in H1. apply N.eqb_eq in H1.
           symmetry. apply lxor_key. exact H1. }
         rewrite Hk. unfold in_xor_range. cbn [fst snd].
         replace (lo <=? k)%N with true by (symmetry; apply N.leb_le; exact R1).
         replace (k <=? hi)%N with true by (symmetry; apply N.leb_le; exact R2).
         replace (Nat.leb (s + length main) (length d)) with true by (symmetry; apply Nat.leb_le; exact Hb).
-        rewrite <- Esk, Hp, vfw_fullword, Hfw. reflexivity.
+        rewrite Hp, vfw_fullword, Hfw. reflexivity.
     - (* no xor: the key is 0 and nothing is reported *)
       unfold xor_range_of. rewrite X.
       assert (Hlit : forall nc,
